@@ -342,6 +342,18 @@ pub fn execute(ctx: &mut Ctx, s: &Scenario) -> Outcome {
                         Built::Ok(_) => ctx.counters.add("probe.other_supported_version_byte_accepted", 1),
                         _ => ctx.counters.add("probe.other_supported_version_byte_rejected", 1),
                     }
+                } else {
+                    // layout v1 has no header: the magic and any version byte other than 2 and 3 in front of a v1 body
+                    // announce a version no loader supports (1 included)
+                    for v in 0..=255u8 {
+                        if v == 2 || v == 3 {
+                            continue;
+                        }
+                        let mut m = vec![0x48, 0x50, 0x4f, v];
+                        m.extend_from_slice(&bytes);
+                        must_reject(ctx, &mut out, &m, "bad-version-accepted", || format!("the HPO magic and version byte {v} in front of a v1 body were accepted ({})", spec.label()), false);
+                    }
+                    ctx.counters.add("fault.version_bytes_enumerated", 254);
                 }
                 out.nontrivial = true;
             } else {
